@@ -187,3 +187,84 @@ Definition check_c10 (c : c10case) : N :=
   let m := all2 res_eqb (map strip_c (bc_res b)) (map strip_c (model_results b))
            && forallb (c10_formula_ok cfg (c10_jn c) (c10_jd c)) (c10_writes c) in
   if m then (if p then 0 else 2)%N else (if p then 1 else 2)%N.
+
+(* ---------- C11 / C12 ---------- *)
+From Cache Require Import Cleanup.
+
+Definition strip_e (e : entry) : entry := mkEntry (eK e) (eV e) (eE e) 0.
+
+Definition no_victims (o : bop) : bop := match o with OCleanup now _ => OCleanup now [] | _ => o end.
+
+Definition cleanup_active (cfg : bcfg) (s : bstate) : bool :=
+  negb (eff_ttl cfg =? unlimited) || (0 <? expset s).
+
+Definition after_delete_expired (cfg : bcfg) (s : bstate) (now : time) (B : list entry) : list entry :=
+  if cleanup_active cfg s
+  then List.filter (fun e => negb (long_expired (now - eff_del_after cfg) e)) B
+  else B.
+
+(* C11 on the implementation's own observations: in every window [Walk B; cleanup at now; Walk A]
+   A is B minus exactly the entries expired longer than DeleteExpiredAfter *)
+Fixpoint c11_scan (hash : key -> N) (cfg : bcfg) (s : bstate) (ops : list bop) (res : list bres)
+         (prev : option (list entry)) : bool :=
+  match ops, res with
+  | o :: ops', r :: res' =>
+    let s' := (b_step hash cfg s (no_victims o)).1.1 in
+    let ok := match o, prev, res' with
+              | OCleanup now _, Some B, RWalk A :: _ =>
+                  bool_decide (map strip_e A ≡ₚ map strip_e (after_delete_expired cfg s now B))
+              | _, _, _ => true
+              end in
+    ok && c11_scan hash cfg s' ops' res' (match r with RWalk l => Some l | _ => None end)
+  | _, _ => true
+  end.
+
+Definition check_c11 (fc : flavour * bcase) : N :=
+  let c := fc.2 in
+  let c' := BCase (bc_cfg c) (bc_tbl c) (map no_victims (bc_ops c)) (bc_res c) (bc_metrics c) in
+  let impl := map strip_c (bc_res c) in
+  let p := c11_scan (table_hash (bc_tbl c)) (bc_cfg c) b0 (bc_ops c) (bc_res c) None in
+  if all2 res_eqb impl (map strip_c (model_results c')) then (if p then 0 else 2)%N
+  else (if p then 1 else 2)%N.
+
+Record c12case := C12Case {
+  c12_fn : Z; c12_fd : Z;        (* effective EvictFraction (0 -> 0.1) as an exact rational *)
+  c12_needed : bool;             (* EvictionNeeded returns true *)
+  c12_b : bcase;
+}.
+
+Definition in_keys (l : list entry) (e : entry) : bool := bool_decide (eK e ∈ map eK l).
+
+Fixpoint c12_scan (hash : key -> N) (cfg : bcfg) (fn fd : Z) (needed : bool) (s : bstate)
+         (ops : list bop) (res : list bres) (prev : option (list entry)) : bool :=
+  match ops, res with
+  | o :: ops', r :: res' =>
+    let s' := (b_step hash cfg s o).1.1 in
+    let ok := match o, prev, res' with
+              | OCleanup now _, Some B, RWalk A :: _ =>
+                  let B' := after_delete_expired cfg s now B in
+                  let evicted := List.filter (fun e => negb (in_keys A e)) B' in
+                  let cnt := Z.of_nat (length B') in
+                  let n := Z.of_nat (length evicted) in
+                  let L := c_count_limit cfg in
+                  let co := negb (L =? 0) && (L <? cnt) in
+                  (* survivors are entries of B', unchanged *)
+                  forallb (fun a => bool_decide (a ∈ B')) A &&
+                  (* "within one entry": one entry plus a relative 2^-30 for the float64 products *)
+                  (if co then Z.abs ((cnt - n) * fd - L * (fd - fn)) * 2 ^ 30 <=? fd * (2 ^ 30 + 1)
+                   else if needed then Z.abs (n * fd - cnt * fn) * 2 ^ 30 <=? fd * (2 ^ 30 + 1)
+                   else n =? 0) &&
+                  evict_rank_ok (c_strategy cfg) evicted A
+              | _, _, _ => true
+              end in
+    ok && c12_scan hash cfg fn fd needed s' ops' res' (match r with RWalk l => Some l | _ => None end)
+  | _, _ => true
+  end.
+
+Definition check_c12 (fc : flavour * c12case) : N :=
+  let c := c12_b fc.2 in
+  let p := c12_scan (table_hash (bc_tbl c)) (bc_cfg c) (c12_fn fc.2) (c12_fd fc.2) (c12_needed fc.2) b0
+                    (bc_ops c) (bc_res c) None in
+  (* correspondence: with the implementation's victims as oracle, all results (Walk incl. counters) agree *)
+  if all2 res_eqb (bc_res c) (model_results c) then (if p then 0 else 2)%N
+  else (if p then 1 else 2)%N.
